@@ -112,11 +112,36 @@ class AbstractFilter:
 
 
 def estimator(chain, method, merge=False):
+    """A DefaultFunctionEstimator made by its real constructor (the constructor is part of the code under contract: state that
+    it sets up is the state the methods run in)."""
     cls = chain.get("ropt.plugins.function_estimator.default", "DefaultFunctionEstimator")
-    e = object.__new__(cls)
-    e._method = method
-    e._enopt_config = types.SimpleNamespace(gradient=types.SimpleNamespace(merge_realizations=merge))
-    return e
+    cfg = types.SimpleNamespace(function_estimators=(types.SimpleNamespace(method=method, options={}),),
+                                gradient=types.SimpleNamespace(merge_realizations=merge))
+    return cls(cfg, 0)
+
+
+class FakePluginManager:
+    """Interface contract of PluginManager as EnsembleEvaluator.__init__ uses it (C19 proves the real one): get_plugin(type,
+    method) returns a plug-in whose create(config, index, ...) returns the object for that configured index.  The objects are
+    supplied by the scenario, indexed by their position in config.realization_filters / function_estimators / samplers, so an
+    evaluator that drops, reorders or shares entries ends up with other objects than the configuration names."""
+
+    def __init__(self, filters=(), estimators=(), samplers=(), factories=None):
+        self.objects = {"realization_filter": list(filters), "function_estimator": list(estimators), "sampler": list(samplers)}
+        self.factories = factories or {}
+        self.created = []
+
+    def get_plugin(self, plugin_type, method):
+        mgr = self
+
+        class _Plugin:
+            def create(self, config, index, *rest):
+                mgr.created.append((plugin_type, method, index, rest))
+                if plugin_type in mgr.factories:
+                    return mgr.factories[plugin_type](config, index, *rest)
+                return mgr.objects[plugin_type][index]
+
+        return _Plugin()
 
 
 def make_config(T, R, J, K, N, *, weights, ow, P=1, omap_est=None, cmap_est=None, omap_flt=None, cmap_flt=None, min_success=None,
@@ -139,16 +164,22 @@ def make_config(T, R, J, K, N, *, weights, ow, P=1, omap_est=None, cmap_est=None
     )
 
 
-def make_evaluator(T, chain, config, evaluator, filters=(), estimators=None, samplers=(), transforms=None):
+def make_evaluator(T, chain, config, evaluator, filters=(), estimators=None, samplers=(), transforms=None, factories=None, configured=None):
+    """An EnsembleEvaluator made by its real constructor with the plug-in objects of the scenario behind a FakePluginManager.
+    `configured` optionally names the configured entries (method/options records); by default one anonymous entry per object."""
     cls = chain.get("ropt.ensemble_evaluator._ensemble_evaluator", "EnsembleEvaluator")
-    ev = object.__new__(cls)
-    ev._config = config
-    ev._transforms = transforms
-    ev._evaluator = evaluator
-    ev._realization_filters = list(filters)
-    ev._function_estimators = [estimator(chain, "mean")] if estimators is None else list(estimators)
-    ev._samplers = list(samplers)
-    ev._cache_for_gradient = None
+    estimators = [estimator(chain, "mean")] if estimators is None else list(estimators)
+    ent = lambda objs, kind: tuple(types.SimpleNamespace(method="contract/%s%d" % (kind, i), options={}) for i in range(len(objs)))  # noqa: E731
+    configured = configured or {}
+    if not hasattr(config, "realization_filters") or "realization_filters" in configured:
+        config.realization_filters = configured.get("realization_filters", ent(filters, "filter"))
+    if not hasattr(config, "function_estimators") or "function_estimators" in configured:
+        config.function_estimators = configured.get("function_estimators", ent(estimators, "estimator"))
+    if not hasattr(config, "samplers") or "samplers" in configured:
+        config.samplers = configured.get("samplers", ent(samplers, "sampler"))
+    pm = FakePluginManager(filters, estimators, samplers, factories)
+    ev = cls(config, transforms, evaluator, pm)
+    ev.__dict__.setdefault("_harness_plugin_manager", pm)
     return ev
 
 
